@@ -58,14 +58,14 @@ inductive Parsed where
   | nilNumber
   | val (v : Value)
 
-def parseValue (ty : Ty) (data : String) : Parsed :=
+def parseValue (cfg : Cfg) (ty : Ty) (data : String) : Parsed :=
   match ty with
   | .account => if validAccount data then .val (.account data) else .bad
   | .asset => if validAsset data then .val (.asset data) else .bad
   | .number =>
     match parseJsonNumber data with
     | none => .bad
-    | some none => .nilNumber
+    | some none => if cfg.nullNumberIsNil then .nilNumber else .bad   -- e8d28b8: "number must not be null"
     | some (some v) => .val (.number v)
   | .string => .val (.str data)
   | .monetary =>
@@ -104,7 +104,7 @@ structure Result where
 /-! ## SetVarsFromJSON -/
 
 /-- `ParseVariablesJSON`: plain variables in declaration order. -/
-def parsePlainVars (vars : List (String × String)) : List VarDecl → Except Err (List (String × Parsed))
+def parsePlainVars (cfg : Cfg) (vars : List (String × String)) : List VarDecl → Except Err (List (String × Parsed))
   | [] => .ok []
   | d :: ds =>
     match d.orig with
@@ -112,19 +112,19 @@ def parsePlainVars (vars : List (String × String)) : List VarDecl → Except Er
       match vars.lookup d.name with
       | none => .error (.run "vars" "missing")
       | some data =>
-        match parseValue d.ty data with
+        match parseValue cfg d.ty data with
         | .bad => .error (.run "vars" "invalid")
         | p =>
-          match parsePlainVars vars ds with
+          match parsePlainVars cfg vars ds with
           | .error e => .error e
           | .ok r => .ok ((d.name, p) :: r)
-    | _ => parsePlainVars vars ds
+    | _ => parsePlainVars cfg vars ds
 
 def isPlain (d : VarDecl) : Bool := match d.orig with | .none => true | _ => false
 
 /-- `SetVarsFromJSON`. -/
-def setVars (s : Script) (inp : Input) : Except Err (List (String × Parsed)) :=
-  match parsePlainVars inp.vars s.vars with
+def setVars (cfg : Cfg) (s : Script) (inp : Input) : Except Err (List (String × Parsed)) :=
+  match parsePlainVars cfg inp.vars s.vars with
   | .error e => .error e
   | .ok ps =>
     let plainNames := (s.vars.filter isPlain).map (·.name)
@@ -137,14 +137,14 @@ def setVars (s : Script) (inp : Input) : Except Err (List (String × Parsed)) :=
 abbrev BalVar := String × String × String
 
 /-- Resources in declaration order. Balance variables get a nil amount here. -/
-def resolveVars (inp : Input) (plain : List (String × Parsed)) :
+def resolveVars (cfg : Cfg) (inp : Input) (plain : List (String × Parsed)) :
     List VarDecl → Env → List BalVar → Except Err (Env × List BalVar)
   | [], env, bvs => .ok (env, bvs)
   | d :: ds, env, bvs =>
     match d.orig with
     | .none =>
       match plain.lookup d.name with
-      | some (.val v) => resolveVars inp plain ds (env ++ [(d.name, v)]) bvs
+      | some (.val v) => resolveVars cfg inp plain ds (env ++ [(d.name, v)]) bvs
       | some .nilNumber => .error (.panic "nil-number")   -- `val.GetType()` on a nil *MonetaryInt
       | _ => .error (.fault "plain variable not parsed")
     | .accountMeta accE key =>
@@ -157,10 +157,10 @@ def resolveVars (inp : Input) (plain : List (String × Parsed)) :
           match md.lookup key with
           | none => .error (.run "resources" "missing-meta")
           | some data =>
-            match parseValue d.ty data with
+            match parseValue cfg d.ty data with
             | .bad => .error (.run "resources" "invalid-meta")
             | .nilNumber => .error (.panic "nil-number")
-            | .val v => resolveVars inp plain ds (env ++ [(d.name, v)]) bvs
+            | .val v => resolveVars cfg inp plain ds (env ++ [(d.name, v)]) bvs
     | .balance accE assetE =>
       match evalAccount env accE with
       | .error e => .error e
@@ -168,7 +168,7 @@ def resolveVars (inp : Input) (plain : List (String × Parsed)) :
         match evalAssetE env assetE with
         | .error e => .error e
         | .ok asset =>
-          resolveVars inp plain ds (env ++ [(d.name, .monetary asset none)]) (bvs ++ [(d.name, acc, asset)])
+          resolveVars cfg inp plain ds (env ++ [(d.name, .monetary asset none)]) (bvs ++ [(d.name, acc, asset)])
 
 /-! ## ResolveBalances -/
 
@@ -243,14 +243,14 @@ def setEnv (env : Env) (name : String) (v : Value) : Env :=
 
 /-- `ResolveBalances`: world check, query, negative check, amounts of the surviving
     `balance()` variables, initial tracked balances. -/
-def initBalances (inp : Input) (env : Env) (bvs : List BalVar) (stmts : List Stmt) :
+def initBalances (cfg : Cfg) (inp : Input) (env : Env) (bvs : List BalVar) (stmts : List Stmt) :
     Except Err (Env × Balances × List (String × String)) :=
   match neededPairs env stmts with
   | .error e => .error e
   | .ok needed =>
     if needed.any (fun p => p.1 = "world") then .error (.run "balances" "world-source")
     else
-      let live := liveBalVars bvs
+      let live := if cfg.balanceVarsPerAddress then liveBalVars bvs else bvs
       if live.any (fun bv => inp.balance bv.2.1 bv.2.2 < 0) then .error (.run "balances" "negative-balance")
       else
         let env' := live.foldl (fun e bv => setEnv e bv.1 (.monetary bv.2.2 (some (inp.balance bv.2.1 bv.2.2)))) env
@@ -266,23 +266,23 @@ def initState (b : Balances) : State :=
   { bal := b, postings := [], txMeta := [], accMeta := [], saved := fun _ _ => 0 }
 
 /-- Everything between compilation and `Execute`. -/
-def prepare (s : Script) (inp : Input) : Except Err (Env × Balances × List (String × String)) :=
-  match setVars s inp with
+def prepare (cfg : Cfg) (s : Script) (inp : Input) : Except Err (Env × Balances × List (String × String)) :=
+  match setVars cfg s inp with
   | .error e => .error e
   | .ok plain =>
-    match resolveVars inp plain s.vars [] [] with
+    match resolveVars cfg inp plain s.vars [] [] with
     | .error e => .error e
-    | .ok (env, bvs) => initBalances inp env bvs s.stmts
+    | .ok (env, bvs) => initBalances cfg inp env bvs s.stmts
 
 /-- The whole pipeline `Parse` + `MachineNumscriptRuntimeAdapter.Execute`. -/
-def sem (s : Script) (inp : Input) : Except Err Result :=
+def sem (cfg : Cfg) (s : Script) (inp : Input) : Except Err Result :=
   match typecheck s with
   | .error msg => .error (.compile msg)
   | .ok _ =>
-    match prepare s inp with
+    match prepare cfg s inp with
     | .error e => .error e
     | .ok (env, bal, _) =>
-      match runStmts env s.stmts (initState bal) with
+      match runStmts cfg env s.stmts (initState bal) with
       | .error e => .error e
       | .ok st => .ok { postings := st.postings, txMeta := st.txMeta, accMeta := st.accMeta, final := st }
 
